@@ -244,8 +244,15 @@ Definition dec_prog (input : J) : option (src * list step * mode) :=
 
 (* the reference says Ok/Err/Panic; the observed outcome must be that, rows compared in the
    program's comparison mode (exact sequence for hash-free programs) *)
+(* the properties promise "an error" for a shape the engine cannot run, not a particular message:
+   on the reference side every error matches every error (the class is part of `agree` only) *)
+Definition obs_meets (m : cmp_mode) (a b : obs) : bool :=
+  match a, b with
+  | OErr _, OErr _ => true
+  | _, _ => obs_agree m a b
+  end.
 Definition meets_ref (s : src) (steps : list step) (o : obs) : bool :=
-  obs_agree (cmp_of steps) (ref_outcome s steps) o.
+  obs_meets (cmp_of steps) (ref_outcome s steps) o.
 
 (* ---------- branching programs: in = [src, prefix, a, b, partitions_or_null] ---------- *)
 Definition dec_branch (input : J) : option (src * list step * list step * list step * mode) :=
@@ -328,6 +335,16 @@ Fixpoint vhash (v : val) : Z :=
   | VNone => 11
   | VSome x => (vhash x * 13 + 2) mod HP
   end.
+(* as vhash, but a list is hashed as a BAG (a commutative sum over its elements): for results whose
+   nested lists are determined only as multisets *)
+Fixpoint vhash_bag (v : val) : Z :=
+  match v with
+  | VInt z => (z * 7 + 1) mod HP
+  | VPair a b => (vhash_bag a * 31 + vhash_bag b * 17 + 3) mod HP
+  | VList l => fold_left (fun acc x => (acc + vhash_bag x * 131) mod HP) l 5
+  | VNone => 11
+  | VSome x => (vhash_bag x * 13 + 2) mod HP
+  end.
 Fixpoint leaves (v : val) : Z :=
   match v with
   | VInt _ => 1
@@ -346,13 +363,15 @@ Definition summary (exact : bool) (rows : list val) : list val :=
     [Z.of_nat (List.length rows); fold_left Z.add keys 0; mn; mx;
      fold_left (fun a r => a + leaves r) rows 0;
      fold_left (fun a r => (a + vhash r) mod HP) rows 0;
-     if exact then fold_left (fun a r => (a * 1000003 + vhash r) mod HP) rows 0 else 0].
+     if exact then fold_left (fun a r => (a * 1000003 + vhash r) mod HP) rows 0 else 0;
+     fold_left (fun a r => (a + vhash_bag r) mod HP) rows 0].
 Definition summarise (exact : bool) (o : obs) : obs :=
   match o with OOk rows => OOk (summary exact rows) | _ => o end.
 (* the observed summary: drop the order-sensitive component unless the order is determined *)
 Definition observed_summary (exact : bool) (o : obs) : obs :=
   match o with
-  | OOk [c; sk; mn; mx; lv; bh; sh] => OOk [c; sk; mn; mx; lv; bh; if exact then sh else VInt 0]
+  | OOk [c; sk; mn; mx; lv; bh; sh; dh] =>
+      OOk [c; sk; mn; mx; lv; bh; if exact then sh else VInt 0; dh]
   | OOk _ => OHang          (* not a summary: never equal to an expected outcome *)
   | _ => o
   end.
@@ -363,7 +382,17 @@ Definition big_ok (steps : list step) : bool := negb (lists_arbitrary steps).
 Definition big_agree (m : mode) (s : src) (steps : list step) (o : obs) : bool :=
   let e := is_exact steps in
   obs_agree CExact (summarise e (model_outcome m s steps)) (observed_summary e o).
+(* the same comparison with every nested list taken as a bag: the two order-sensitive row hashes
+   are dropped, the bag hash (last component) decides *)
+Definition bag_view (o : obs) : obs :=
+  match o with
+  | OOk [c; sk; mn; mx; lv; _; _; dh] => OOk [c; sk; mn; mx; lv; VInt 0; VInt 0; dh]
+  | _ => o
+  end.
+Definition big_meets_ref_bag (s : src) (steps : list step) (o : obs) : bool :=
+  obs_meets CExact (bag_view (summarise false (ref_outcome s steps)))
+            (bag_view (observed_summary false o)).
 Definition big_meets_ref (s : src) (steps : list step) (o : obs) : bool :=
   let e := is_exact steps in
-  obs_agree CExact (summarise e (ref_outcome s steps)) (observed_summary e o).
+  obs_meets CExact (summarise e (ref_outcome s steps)) (observed_summary e o).
 Close Scope Z_scope.
